@@ -18,7 +18,8 @@
 // work in goroutines): log order is execution order and no intercepted
 // operation runs while a snapshot is taken. Writes through an *os.File are not
 // intercepted; harnesses assert instead that files under final names only ever
-// change through an intercepted rename (see FinalNameChanges in the checks).
+// change through an intercepted rename (unexplainedFinalChange in the C12 check,
+// c35Unexplained in the C35 check).
 //
 // It imports only the standard library so that any zoekt package can import it.
 package fsx
